@@ -43,7 +43,21 @@ def check_scaffold(rows_plain, queries, rec, case):
     else:
         scaffold = Scaffold("s", rows)
     rows = scaffold.rows
-    asm = must(IndexedAssembly, "a", scaffolds=[scaffold], what="IndexedAssembly()")
+    how = case.get("scaffolds_as", "list") if isinstance(case, dict) else "list"
+    if how == "generator":
+        # any iterable is accepted by the constructor, also one that can be consumed only once
+        asm = must(IndexedAssembly, "a", scaffolds=(x for x in [scaffold]), what="IndexedAssembly(generator)")
+    elif how == "dict_values":
+        asm = must(IndexedAssembly, "a", scaffolds={"s": scaffold}.values(), what="IndexedAssembly(dict view)")
+    elif how == "new_from_assembly":
+        from tola.assembly.assembly import Assembly
+
+        asm = must(IndexedAssembly.new_from_assembly, Assembly("a", scaffolds=[scaffold]), what="IndexedAssembly.new_from_assembly")
+    elif how == "add_later":
+        asm = must(IndexedAssembly, "a", what="IndexedAssembly()")
+        must(asm.add_scaffold, scaffold, what="add_scaffold")
+    else:
+        asm = must(IndexedAssembly, "a", scaffolds=[scaffold], what="IndexedAssembly()")
     if isinstance(case, dict) and case.get("rejected_duplicate"):
         # a second scaffold of the same name is refused; that must not disturb the one already indexed
         try:
@@ -122,8 +136,15 @@ def scaffold_rows(draw, max_rows=12, strands=(1, -1)):
 @st.composite
 def cases(draw):
     rows = draw(scaffold_rows())
-    total = ref.rows_len(rows)
     extra = {}
+    if draw(st.integers(0, 5)) == 0:
+        # chromosome-scale and giant-genome coordinates (beyond 2**31 / 2**32 / 2**53)
+        f = draw(st.sampled_from([10**4, 10**7, 2**29, 10**9, 2**50]))
+        rows = [["G", r[1] * f, r[2]] if r[0] == "G" else ["F", r[1], r[2], r[2] + (r[3] - r[2] + 1) * f - 1, r[4]] for r in rows]
+        extra["scaled_by"] = f
+    if draw(st.integers(0, 2)) == 0:
+        extra["scaffolds_as"] = draw(st.sampled_from(["generator", "dict_values", "new_from_assembly", "add_later"]))
+    total = ref.rows_len(rows)
     if draw(st.integers(0, 3)) == 0:
         extra["built_in_two_parts"] = draw(st.integers(1, max(1, len(rows) - 1)))
     if draw(st.integers(0, 3)) == 0:
@@ -155,7 +176,21 @@ def body_history(case, rec):
     rows = conv.mk_rows(rows_plain)
     original = list(rows)
     scaffold = Scaffold("s", rows)
-    asm = must(IndexedAssembly, "a", scaffolds=[scaffold], what="IndexedAssembly()")
+    how = case.get("scaffolds_as", "list") if isinstance(case, dict) else "list"
+    if how == "generator":
+        # any iterable is accepted by the constructor, also one that can be consumed only once
+        asm = must(IndexedAssembly, "a", scaffolds=(x for x in [scaffold]), what="IndexedAssembly(generator)")
+    elif how == "dict_values":
+        asm = must(IndexedAssembly, "a", scaffolds={"s": scaffold}.values(), what="IndexedAssembly(dict view)")
+    elif how == "new_from_assembly":
+        from tola.assembly.assembly import Assembly
+
+        asm = must(IndexedAssembly.new_from_assembly, Assembly("a", scaffolds=[scaffold]), what="IndexedAssembly.new_from_assembly")
+    elif how == "add_later":
+        asm = must(IndexedAssembly, "a", what="IndexedAssembly()")
+        must(asm.add_scaffold, scaffold, what="add_scaffold")
+    else:
+        asm = must(IndexedAssembly, "a", scaffolds=[scaffold], what="IndexedAssembly()")
     held = scaffold.rows
     edits = 0
     whole = False
